@@ -2041,6 +2041,10 @@ impl BytecodeVM {
 
     /// Execute a single opcode
     fn execute_op(&mut self, interp: &mut Interpreter, op: Op) -> Result<OpResult, JsError> {
+        #[cfg(tsrun_verif)]
+        {
+            interp.verif_instr_count += 1;
+        }
         match op {
             // ═══════════════════════════════════════════════════════════════════════════
             // Constants & Register Operations
